@@ -4,7 +4,9 @@ import (
 	"fmt"
 	"math/rand"
 	"path/filepath"
+	"runtime"
 	"sort"
+	"sync"
 )
 
 // runNumProfile records the numeric scans of one family into `shards` files.
@@ -28,11 +30,30 @@ func runNumProfile(profile string, thorough bool, seed int64, out string, shards
 		if thorough {
 			nrand *= 8
 		}
+		// instantiations run in parallel, each into its own memory writer (the thorough tier's exhaustive
+		// 32-bit and float32 sweeps take tens of seconds each); results are appended in a fixed order
+		var insts []NumInst
 		for _, in := range NumInsts {
-			if in.Fam != fam {
-				continue
+			if in.Fam == fam {
+				insts = append(insts, in)
 			}
-			in.Run(next(), rng, nrand, thorough)
+		}
+		mems := make([]*numWriter, len(insts))
+		sem := make(chan struct{}, runtime.NumCPU())
+		var wg sync.WaitGroup
+		for i, in := range insts {
+			mems[i] = newMemWriter(i * 1000)
+			wg.Add(1)
+			go func(i int, in NumInst) {
+				defer wg.Done()
+				sem <- struct{}{}
+				defer func() { <-sem }()
+				in.Run(mems[i], rand.New(rand.NewSource(seed*31337+int64(i))), nrand, thorough)
+			}(i, in)
+		}
+		wg.Wait()
+		for i := range insts {
+			next().absorb(mems[i])
 			st.Extra["instantiations"]++
 		}
 	case "depth":
